@@ -67,3 +67,47 @@ Example C05_example :
   emitted_ccs 256 (combine ex_ops (snd ex_run)) = [0; 1] /\
   emitted_ccs C_PIDPAT (combine ex_ops (snd ex_run)) = [0; 1; 2; 3].
 Proof. split; [exact ex_no_panic|]. split; [exact ex_entry_ok|]. vm_compute. repeat split. Qed.
+
+(* ---- the functions that create, keep and restore the counters ARE the source ----
+   Gen/MuxGen.v is translated from the current /repo/muxer.go on every run (go/gen/muxgen*.go). add_es / remove_es
+   (the counter of a removed PID is kept in removedCCs and handed back when the PID is added again) and
+   write_tables (the snapshot of the six counters and flags, restored when a table cannot be generated) are those
+   regenerated functions; a cap on removedCCs, a narrowed snapshot or a reordered generatePAT / generatePMT changes
+   Gen/MuxGen.v and breaks these proofs without a generated history having to reach the change. *)
+Require Import Gen.Preds Gen.MuxGen Model.Psi Model.Desc Proofs.MuxGenEq.
+Import ListNotations.
+Open Scope Z_scope.
+
+Theorem C05_add_remove_is_source : forall s,
+  (forall es pb,
+     add_es s es = add_of_gen s (Muxer_AddElementaryStream ge_get ge_set gr_del gr_get (S (S (length (ms_es s))))
+                                   (pmt_of s) (ms_pmt_updated s) (ms_next_pid s) pb (ms_es s) (ms_removed s) es)) /\
+  (forall pid pb,
+     remove_es s pid =
+     remove_of_gen s (Muxer_RemoveElementaryStream ge_del ge_get gr_set (pmt_of s) (ms_pmt_updated s) pb (ms_es s)
+                        (ms_removed s) pid)) /\
+  (forall es, new_es_context es = ctx_mod (newEsContext es)).
+Proof.
+  intros s. split; [exact (add_es_of_generated s)|]. split; [exact (remove_es_of_generated s)|exact new_es_context_is_generated].
+Qed.
+Print Assumptions C05_add_remove_is_source.
+
+(* the association lists of the model behave as the two Go maps *)
+Theorem C05_maps_are_maps : forall (l : list (Z * esctx)) (r : list (Z * wrappingCounter)) k c cc x,
+  (ge_get (ge_set l k (ctx_gen c)) x = (if k =? x then Some (ctx_gen c) else ge_get l x) /\
+   ge_get (ge_del l k) x = (if k =? x then None else ge_get l x)) /\
+  (gr_get (gr_set r k cc) x = (if k =? x then Some cc else gr_get r x) /\
+   gr_get (gr_del r k) x = (if k =? x then None else gr_get r x)).
+Proof. intros. split; [apply ge_map_model|apply gr_map_model]. Qed.
+Print Assumptions C05_maps_are_maps.
+
+(* WriteTables: snapshot, generatePAT, generatePMT, restore on error, the two writes *)
+Theorem C05_restore_is_source : forall s pb mb buf, pa_res (snd (write_tables s)) <> Panic ->
+  let '(w, pmu, pmtu, patv, pmtv, patcc, pmtcc, _, _, _, n, e) :=
+    Muxer_WriteTables calc_descriptor_length calc_pmt_section_length g_write to_pat g_wpsi g_wpkt
+      (@nil (list Z)) C_MpegTsPacketSize mux_pm (ms_pm_updated s) (pmt_of s) (ms_pmt_updated s)
+      (ms_pat_version s) (ms_pmt_version s) (ms_pat_cc s) (ms_pmt_cc s) pb mb buf in
+  fst (write_tables s) = set_tables s patv pmtv patcc pmtcc pmu pmtu /\
+  mout_of_part (snd (write_tables s)) = mk_mout (terr_res e) n (groups_of w).
+Proof. exact write_tables_of_generated. Qed.
+Print Assumptions C05_restore_is_source.
